@@ -118,8 +118,19 @@ def confirm(wt, d):
     reset(wt)
     sh(["git", "apply", "--whitespace=nowarn", patch], cwd=wt)
     rc, failed, summ, built = run_nextest(wt, ["--workspace"], os.path.join(d, "confirm-suite.log"))
-    stable_failed = sorted(f"{b.split('::')[0]}::{t}" for (b, t) in failed
-                           if f"{b.split('::')[0]}::{t}" in STABLE or f"{b}::{t}" in STABLE)
+    def stable_of(fs):
+        return sorted({(b, t) for (b, t) in fs
+                       if f"{b.split('::')[0]}::{t}" in STABLE or f"{b}::{t}" in STABLE})
+    sf = stable_of(failed)
+    # timing-sensitive tests flake on a loaded machine: re-run the failing stable tests alone, twice
+    for attempt in range(2):
+        if not sf:
+            break
+        filt2 = " | ".join(f"test(/^{re.escape(t)}$/)" for (_b, t) in sf)
+        rc2, failed2, summ2, _ = run_nextest(wt, ["--workspace", "-E", filt2],
+                                             os.path.join(d, f"confirm-suite-retry{attempt}.log"))
+        sf = [x for x in sf if x in stable_of(failed2)]
+    stable_failed = sorted(f"{b.split('::')[0]}::{t}" for (b, t) in sf)
     out["suite"] = {"summary": summ, "stable_tests_failing": stable_failed, "built": built}
     reset(wt)
     if not built:
